@@ -64,6 +64,230 @@ pub trait FmtX: fmt::Format + Sized + 'static {
     fn extend_byte<A: Atomicity>(_t: &mut Tendril<Self, A>) -> bool {
         false
     }
+    const HAS_EXTEND_BYTE: bool = false;
+    fn extend_huge<A: Atomicity>(_t: &mut Tendril<Self, A>, _n: u32) {}
+    /// Hash must agree with the hash of the byte slice (Borrow<[u8]> contract of the slice formats)
+    const HASH_AS_BYTES: bool = true;
+    /// format-specific conversion / trait batteries (leaf-only `Op::Conv`); ids >= 10
+    fn convs() -> &'static [u8] {
+        &[]
+    }
+    /// real side: mutate `t` in place, return labelled observations
+    fn conv<A: Atomicity>(_w: u8, _t: &mut Tendril<Self, A>) -> Obs {
+        vec![]
+    }
+    /// model side of the same battery
+    fn m_conv(_w: u8, _m: &mut Vec<u8>) -> Obs {
+        vec![]
+    }
+    fn cmp_x<A: Atomicity>(_a: &Tendril<Self, A>, _b: &Tendril<Self, A>) -> Option<std::cmp::Ordering> {
+        None
+    }
+}
+
+pub type Obs = Vec<(&'static str, Vec<u8>)>;
+
+fn bytes_of<X: fmt::Format, A: Atomicity>(t: &Tendril<X, A>) -> Vec<u8> {
+    let b: &[u8] = t.as_bytes();
+    b.to_vec()
+}
+fn flag(b: bool) -> Vec<u8> {
+    vec![b as u8]
+}
+fn hash_of<T: std::hash::Hash + ?Sized>(t: &T) -> Vec<u8> {
+    use std::hash::Hasher;
+    let mut h = std::collections::hash_map::DefaultHasher::new();
+    t.hash(&mut h);
+    h.finish().to_le_bytes().to_vec()
+}
+
+/// generic batteries (ids < 10)
+pub const G_REINTERPRET: u8 = 0;
+pub const G_EQ_HASH_ORD: u8 = 1;
+pub const G_EXTEND_TENDRILS: u8 = 2;
+pub const G_FROM_ITER_TENDRILS: u8 = 3;
+pub const G_BYTES_ROUNDTRIP: u8 = 4;
+pub const G_WITH_CAPACITY: u8 = 5;
+const GENERIC_CONVS: &[u8] = &[G_REINTERPRET, G_EQ_HASH_ORD, G_EXTEND_TENDRILS, G_FROM_ITER_TENDRILS, G_BYTES_ROUNDTRIP, G_WITH_CAPACITY];
+const CAPS: &[u32] = &[0, 1, 8, 9, 16, 100];
+
+fn g_real<F: FmtX, A: Atomicity>(w: u8, t: &mut Tendril<F, A>, oth: [Option<&Tendril<F, A>>; 2]) -> (Obs, Option<Tendril<F, A>>) {
+    let mut o: Obs = vec![];
+    let mut new2 = None;
+    match w {
+        G_REINTERPRET => {
+            macro_rules! one {
+                ($X:ty, $v:literal, $ve:literal, $i:literal, $ie:literal) => {
+                    match t.try_reinterpret_view::<$X>() {
+                        Ok(v) => o.push(($v, bytes_of(v))),
+                        Err(()) => o.push(($ve, vec![])),
+                    }
+                    match t.clone().try_reinterpret::<$X>() {
+                        Ok(v) => o.push(($i, bytes_of(&v))),
+                        Err(orig) => o.push(($ie, bytes_of(&orig))),
+                    }
+                };
+            }
+            one!(fmt::Bytes, "view-Bytes", "view-err-Bytes", "into-Bytes", "into-err-Bytes");
+            one!(fmt::UTF8, "view-UTF8", "view-err-UTF8", "into-UTF8", "into-err-UTF8");
+            one!(fmt::ASCII, "view-ASCII", "view-err-ASCII", "into-ASCII", "into-err-ASCII");
+            one!(fmt::Latin1, "view-Latin1", "view-err-Latin1", "into-Latin1", "into-err-Latin1");
+            one!(fmt::WTF8, "view-WTF8", "view-err-WTF8", "into-WTF8", "into-err-WTF8");
+            o.push(("into_bytes", bytes_of(&t.clone().into_bytes())));
+        },
+        G_EQ_HASH_ORD => {
+            o.push(("hash", hash_of(t)));
+            let c = t.clone();
+            o.push(("eq-clone", flag(*t == c && !(*t != c))));
+            o.push(("hash-clone", flag(hash_of(t) == hash_of(&c))));
+            for x in oth.iter().flatten() {
+                o.push(("eq", flag(*t == **x)));
+                o.push(("eq-sym", flag(**x == *t)));
+                o.push(("hash-eq", flag(hash_of(t) == hash_of(*x))));
+                let k = match F::cmp_x(t, x) {
+                    None => 9u8,
+                    Some(std::cmp::Ordering::Less) => 0,
+                    Some(std::cmp::Ordering::Equal) => 1,
+                    Some(std::cmp::Ordering::Greater) => 2,
+                };
+                o.push(("cmp", vec![k]));
+            }
+        },
+        G_EXTEND_TENDRILS => {
+            let cl: Vec<Tendril<F, A>> = oth.iter().flatten().map(|x| (*x).clone()).collect();
+            t.extend(cl.iter());
+            let me = t.clone();
+            t.extend(std::iter::once(&me));
+        },
+        G_FROM_ITER_TENDRILS => {
+            let mut refs: Vec<&Tendril<F, A>> = vec![&*t];
+            refs.extend(oth.iter().flatten().copied());
+            let n: Tendril<F, A> = refs.iter().copied().collect();
+            o.push(("collected", bytes_of(&n)));
+            let e: Tendril<F, A> = std::iter::empty::<&Tendril<F, A>>().collect();
+            o.push(("collected-empty", bytes_of(&e)));
+            new2 = Some(n);
+        },
+        G_BYTES_ROUNDTRIP => {
+            let tmp = std::mem::replace(t, Tendril::new());
+            o.push(("taken-leaves-empty", bytes_of(t)));
+            let b = tmp.into_bytes();
+            match b.try_reinterpret::<F>() {
+                Ok(x) => *t = x,
+                Err(b) => o.push(("roundtrip-rejected", bytes_of(&b))),
+            }
+        },
+        G_WITH_CAPACITY => {
+            for &k in CAPS {
+                let mut n = Tendril::<F, A>::with_capacity(k);
+                o.push(("fresh", bytes_of(&n)));
+                n.push_tendril(t);
+                o.push(("cap+t", bytes_of(&n)));
+                n.push_tendril(t);
+                o.push(("cap+t+t", bytes_of(&n)));
+            }
+            let d: Tendril<F, A> = Default::default();
+            o.push(("default", bytes_of(&d)));
+        },
+        _ => {},
+    }
+    (o, new2)
+}
+
+fn g_model<F: FmtX>(w: u8, m: &mut Vec<u8>, oth: [Option<&Vec<u8>>; 2]) -> (Obs, Option<Vec<u8>>) {
+    let mut o: Obs = vec![];
+    let mut new2 = None;
+    match w {
+        G_REINTERPRET => {
+            let v = [
+                (<fmt::Bytes as FmtX>::m_valid(m), "view-Bytes", "view-err-Bytes", "into-Bytes", "into-err-Bytes"),
+                (<fmt::UTF8 as FmtX>::m_valid(m), "view-UTF8", "view-err-UTF8", "into-UTF8", "into-err-UTF8"),
+                (<fmt::ASCII as FmtX>::m_valid(m), "view-ASCII", "view-err-ASCII", "into-ASCII", "into-err-ASCII"),
+                (<fmt::Latin1 as FmtX>::m_valid(m), "view-Latin1", "view-err-Latin1", "into-Latin1", "into-err-Latin1"),
+                (<fmt::WTF8 as FmtX>::m_valid(m), "view-WTF8", "view-err-WTF8", "into-WTF8", "into-err-WTF8"),
+            ];
+            for (ok, a, ae, b, be) in v {
+                if ok {
+                    o.push((a, m.clone()));
+                    o.push((b, m.clone()));
+                } else {
+                    o.push((ae, vec![]));
+                    o.push((be, m.clone()));
+                }
+            }
+            o.push(("into_bytes", m.clone()));
+        },
+        G_EQ_HASH_ORD => {
+            o.push(("hash", hash_of(&m[..])));
+            o.push(("eq-clone", flag(true)));
+            o.push(("hash-clone", flag(true)));
+            for x in oth.iter().flatten() {
+                o.push(("eq", flag(m == *x)));
+                o.push(("eq-sym", flag(m == *x)));
+                // placeholder: equal content must hash equally; unequal content may collide
+                o.push(("hash-eq", flag(m == *x)));
+                o.push(("cmp", vec![match m[..].cmp(&x[..]) {
+                    std::cmp::Ordering::Less => 0u8,
+                    std::cmp::Ordering::Equal => 1,
+                    std::cmp::Ordering::Greater => 2,
+                }]));
+            }
+        },
+        G_EXTEND_TENDRILS => {
+            for x in oth.iter().flatten() {
+                F::m_push(m, x);
+            }
+            let me = m.clone();
+            F::m_push(m, &me);
+        },
+        G_FROM_ITER_TENDRILS => {
+            let mut n = m.clone();
+            for x in oth.iter().flatten() {
+                F::m_push(&mut n, x);
+            }
+            o.push(("collected", n.clone()));
+            o.push(("collected-empty", vec![]));
+            new2 = Some(n);
+        },
+        G_BYTES_ROUNDTRIP => {
+            o.push(("taken-leaves-empty", vec![]));
+        },
+        G_WITH_CAPACITY => {
+            for _ in CAPS {
+                o.push(("fresh", vec![]));
+                o.push(("cap+t", m.clone()));
+                let mut d = m.clone();
+                F::m_push(&mut d, m);
+                o.push(("cap+t+t", d));
+            }
+            o.push(("default", vec![]));
+        },
+        _ => {},
+    }
+    (o, new2)
+}
+
+/// compare observation lists; "hash" is only comparable where the format promises slice hashing, "cmp" where
+/// the format has an ordering, "hash-eq" only obliges equal contents to hash equally
+fn obs_diff<F: FmtX>(real: &Obs, model: &Obs) -> Option<String> {
+    if real.len() != model.len() {
+        return Some(format!("{} observations, model {}", real.len(), model.len()));
+    }
+    for (i, ((rl, rv), (ml, mv))) in real.iter().zip(model.iter()).enumerate() {
+        if rl != ml {
+            return Some(format!("observation {i}: real {rl} ({rv:02X?}) model {ml} ({mv:02X?})"));
+        }
+        let skip = match *rl {
+            "hash" => !F::HASH_AS_BYTES,
+            "cmp" => rv == &[9u8],
+            "hash-eq" => mv == &[0u8],
+            _ => false,
+        };
+        if !skip && rv != mv {
+            return Some(format!("observation {i} ({rl}): real {rv:02X?} model {mv:02X?}"));
+        }
+    }
+    None
 }
 
 fn classify(c: char) -> bool {
@@ -132,9 +356,203 @@ impl FmtX for fmt::Bytes {
         t.extend_with_byte(3, b'z');
         true
     }
+    const HAS_EXTEND_BYTE: bool = true;
+    fn extend_huge<A: Atomicity>(t: &mut Tendril<Self, A>, n: u32) {
+        t.extend_with_byte(n, b'z');
+    }
+    fn convs() -> &'static [u8] {
+        &[20, 21, 22, 23, 24, 25]
+    }
+    fn cmp_x<A: Atomicity>(a: &Tendril<Self, A>, b: &Tendril<Self, A>) -> Option<std::cmp::Ordering> {
+        if a.partial_cmp(b) != Some(a.cmp(b)) {
+            return Some(a.cmp(b).reverse());
+        }
+        Some(a.cmp(b))
+    }
+    fn conv<A: Atomicity>(w: u8, t: &mut Tendril<Self, A>) -> Obs {
+        use std::io::Write;
+        use tendril::ReadExt;
+        let mut o: Obs = vec![];
+        match w {
+            20 => {
+                t.extend(B_BYTES.iter().copied());
+                t.extend(std::iter::empty::<u8>());
+                let n: Tendril<Self, A> = B_BYTES.iter().copied().collect();
+                o.push(("from-u8", bytes_of(&n)));
+                let n: Tendril<Self, A> = (0..40u8).collect();
+                o.push(("from-u8-40", bytes_of(&n)));
+            },
+            21 => {
+                t.extend(B_BYTES.iter());
+                let n: Tendril<Self, A> = B_BYTES.iter().collect();
+                o.push(("from-&u8", bytes_of(&n)));
+            },
+            22 => {
+                t.extend(B_SLICES.iter().copied());
+                let n: Tendril<Self, A> = B_SLICES.iter().copied().collect();
+                o.push(("from-slices", bytes_of(&n)));
+            },
+            23 => {
+                match t.write(b"hello world!") {
+                    Ok(n) => o.push(("write", vec![n as u8])),
+                    Err(_) => o.push(("write-err", vec![])),
+                }
+                o.push(("write-empty", vec![t.write(b"").map(|n| n as u8).unwrap_or(99)]));
+                o.push(("write_all", flag(t.write_all(&[0xFF, 0x00, 0x41]).is_ok())));
+                o.push(("flush", flag(t.flush().is_ok())));
+                o.push(("write!", flag(write!(t, "{}:{}", 5, "z").is_ok())));
+            },
+            24 => {
+                for &n in READ_LENS {
+                    let data: Vec<u8> = (0..n).map(|i| (i % 251) as u8).collect();
+                    let mut rd: &[u8] = &data;
+                    match rd.read_to_tendril(t) {
+                        Ok(k) => o.push(("read", (k as u32).to_le_bytes().to_vec())),
+                        Err(_) => o.push(("read-err", vec![])),
+                    }
+                }
+                let mut rd = Dribble { data: (0..70u8).collect(), pos: 0, step: 1, fail_at: None, interrupted: 0 };
+                o.push(("dribble", vec![rd.read_to_tendril(t).map(|k| k as u8).unwrap_or(255)]));
+                let mut rd = Dribble { data: (0..70u8).collect(), pos: 0, step: 7, fail_at: None, interrupted: 2 };
+                o.push(("interrupted", vec![rd.read_to_tendril(t).map(|k| k as u8).unwrap_or(255)]));
+                let mut rd = Dribble { data: (0..70u8).collect(), pos: 0, step: 5, fail_at: Some(10), interrupted: 0 };
+                o.push(("failing", vec![rd.read_to_tendril(t).map(|k| k as u8).unwrap_or(255)]));
+            },
+            25 => {
+                let v: Vec<u8> = t.to_vec();
+                o.push(("From<&[u8]>", bytes_of(&Tendril::<Self, A>::from(&v[..]))));
+                o.push(("from_slice", bytes_of(&Tendril::<Self, A>::from_slice(&v))));
+                o.push(("to_tendril", bytes_of(&tendril::SliceExt::to_tendril(&v[..]))));
+                let r: &[u8] = t.as_ref();
+                o.push(("AsRef<[u8]>", r.to_vec()));
+                let b: &[u8] = std::borrow::Borrow::borrow(&*t);
+                o.push(("Borrow<[u8]>", b.to_vec()));
+                t.push_slice(&[0x80, 0x41]);
+                let dbg = format!("{:?}", t);
+                let kind_ok = ["Tendril<Bytes>(inline: ", "Tendril<Bytes>(owned: ", "Tendril<Bytes>(shared: "].iter().find(|p| dbg.starts_with(**p));
+                o.push(("Debug-content", kind_ok.map(|p| dbg[p.len()..].as_bytes().to_vec()).unwrap_or_default()));
+            },
+            _ => {},
+        }
+        o
+    }
+    fn m_conv(w: u8, m: &mut Vec<u8>) -> Obs {
+        let mut o: Obs = vec![];
+        match w {
+            20 => {
+                m.extend_from_slice(B_BYTES);
+                o.push(("from-u8", B_BYTES.to_vec()));
+                o.push(("from-u8-40", (0..40u8).collect()));
+            },
+            21 => {
+                m.extend_from_slice(B_BYTES);
+                o.push(("from-&u8", B_BYTES.to_vec()));
+            },
+            22 => {
+                let add = B_SLICES.concat();
+                m.extend_from_slice(&add);
+                o.push(("from-slices", add));
+            },
+            23 => {
+                m.extend_from_slice(b"hello world!");
+                m.extend_from_slice(&[0xFF, 0x00, 0x41]);
+                m.extend_from_slice(b"5:z");
+                o.push(("write", vec![12]));
+                o.push(("write-empty", vec![0]));
+                o.push(("write_all", flag(true)));
+                o.push(("flush", flag(true)));
+                o.push(("write!", flag(true)));
+            },
+            24 => {
+                for &n in READ_LENS {
+                    m.extend((0..n).map(|i| (i % 251) as u8));
+                    o.push(("read", n.to_le_bytes().to_vec()));
+                }
+                m.extend(0..70u8);
+                o.push(("dribble", vec![70]));
+                m.extend(0..70u8);
+                o.push(("interrupted", vec![70]));
+                // a failing reader: the bytes read before the error stay (as std's read_to_end)
+                m.extend(0..10u8);
+                o.push(("failing", vec![255]));
+            },
+            25 => {
+                for l in ["From<&[u8]>", "from_slice", "to_tendril", "AsRef<[u8]>", "Borrow<[u8]>"] {
+                    o.push((l, m.clone()));
+                }
+                m.extend_from_slice(&[0x80, 0x41]);
+                o.push(("Debug-content", format!("{:?})", &m[..]).into_bytes()));
+            },
+            _ => {},
+        }
+        o
+    }
+}
+
+const U_CHARS: &[char] = &['a', '\u{e9}', '\u{1F600}', '\u{7ff}', '\u{800}'];
+const U_STRS: &[&str] = &["", "ab", "\u{e9}x", "0123456789"];
+const B_BYTES: &[u8] = &[1, 2, 0xFF, 0, 0x80];
+const B_SLICES: &[&[u8]] = &[b"", b"ab", &[0xC3], b"0123456789"];
+const READ_LENS: &[u32] = &[0, 5, 31, 32, 33, 100, 5000];
+
+/// an io::Read that hands out `step` bytes per call, reports Interrupted `interrupted` times first and
+/// fails with a hard error once `fail_at` bytes have been delivered
+struct Dribble {
+    data: Vec<u8>,
+    pos: usize,
+    step: usize,
+    fail_at: Option<usize>,
+    interrupted: u32,
+}
+impl std::io::Read for Dribble {
+    fn read(&mut self, buf: &mut [u8]) -> std::io::Result<usize> {
+        if self.interrupted > 0 {
+            self.interrupted -= 1;
+            return Err(std::io::Error::from(std::io::ErrorKind::Interrupted));
+        }
+        if let Some(f) = self.fail_at {
+            if self.pos >= f {
+                return Err(std::io::Error::from(std::io::ErrorKind::BrokenPipe));
+            }
+        }
+        let n = self.step.min(buf.len()).min(self.data.len() - self.pos);
+        buf[..n].copy_from_slice(&self.data[self.pos..self.pos + n]);
+        self.pos += n;
+        Ok(n)
+    }
 }
 impl FmtX for fmt::Latin1 {
     const NAME: &'static str = "Latin1";
+    fn convs() -> &'static [u8] {
+        &[31]
+    }
+    fn conv<A: Atomicity>(w: u8, t: &mut Tendril<Self, A>) -> Obs {
+        let mut o: Obs = vec![];
+        if w == 31 {
+            match t.try_as_subset::<fmt::ASCII>() {
+                Ok(v) => o.push(("as_subset<ASCII>", bytes_of(v))),
+                Err(()) => o.push(("as_subset<ASCII>-err", vec![])),
+            }
+            match t.clone().try_into_subset::<fmt::ASCII>() {
+                Ok(v) => o.push(("into_subset<ASCII>", bytes_of(&v))),
+                Err(orig) => o.push(("into_subset<ASCII>-err", bytes_of(&orig))),
+            }
+        }
+        o
+    }
+    fn m_conv(w: u8, m: &mut Vec<u8>) -> Obs {
+        let mut o: Obs = vec![];
+        if w == 31 {
+            if m.is_ascii() {
+                o.push(("as_subset<ASCII>", m.clone()));
+                o.push(("into_subset<ASCII>", m.clone()));
+            } else {
+                o.push(("as_subset<ASCII>-err", vec![]));
+                o.push(("into_subset<ASCII>-err", m.clone()));
+            }
+        }
+        o
+    }
     fn lits() -> &'static [&'static [u8]] {
         &[L_A, L_9, L_HI]
     }
@@ -173,6 +591,34 @@ impl FmtX for fmt::Latin1 {
 }
 impl FmtX for fmt::ASCII {
     const NAME: &'static str = "ASCII";
+    fn convs() -> &'static [u8] {
+        &[30]
+    }
+    fn conv<A: Atomicity>(w: u8, t: &mut Tendril<Self, A>) -> Obs {
+        let mut o: Obs = vec![];
+        if w == 30 {
+            o.push(("as_superset<UTF8>", bytes_of(t.as_superset::<fmt::UTF8>())));
+            o.push(("as_superset<Latin1>", bytes_of(t.as_superset::<fmt::Latin1>())));
+            let u = t.clone().into_superset::<fmt::UTF8>();
+            o.push(("into_superset<UTF8>-str", u.as_ref().as_bytes().to_vec()));
+            let own = String::from_utf8_lossy(&bytes_of(t)).into_owned();
+            o.push(("eq-str", flag(*t == *own.as_str())));
+            let longer = format!("{own}x");
+            o.push(("ne-longer-str", flag(*t == *longer.as_str())));
+        }
+        o
+    }
+    fn m_conv(w: u8, m: &mut Vec<u8>) -> Obs {
+        let mut o: Obs = vec![];
+        if w == 30 {
+            for l in ["as_superset<UTF8>", "as_superset<Latin1>", "into_superset<UTF8>-str"] {
+                o.push((l, m.clone()));
+            }
+            o.push(("eq-str", flag(true)));
+            o.push(("ne-longer-str", flag(false)));
+        }
+        o
+    }
     fn lits() -> &'static [&'static [u8]] {
         &[L_A, L_9, L_HI]
     }
@@ -242,6 +688,166 @@ impl FmtX for fmt::UTF8 {
         m.extend_from_slice(c.encode_utf8(&mut b).as_bytes());
         Ok(())
     }
+    fn convs() -> &'static [u8] {
+        &[10, 11, 12, 13, 14, 15]
+    }
+    fn cmp_x<A: Atomicity>(a: &Tendril<Self, A>, b: &Tendril<Self, A>) -> Option<std::cmp::Ordering> {
+        if a.partial_cmp(b) != Some(a.cmp(b)) {
+            return Some(std::cmp::Ordering::Equal).filter(|_| false).or(Some(a.cmp(b).reverse()));
+        }
+        Some(a.cmp(b))
+    }
+    fn conv<A: Atomicity>(w: u8, t: &mut Tendril<Self, A>) -> Obs {
+        use std::fmt::Write;
+        let mut o: Obs = vec![];
+        match w {
+            10 => {
+                t.extend(U_CHARS.iter().copied());
+                t.extend(std::iter::empty::<char>());
+                let n: Tendril<Self, A> = U_CHARS.iter().copied().collect();
+                o.push(("from-chars", bytes_of(&n)));
+            },
+            11 => {
+                t.extend(U_STRS.iter().copied());
+                let n: Tendril<Self, A> = U_STRS.iter().copied().collect();
+                o.push(("from-strs", bytes_of(&n)));
+            },
+            12 => {
+                o.push(("write_str", flag(t.write_str("xy").is_ok())));
+                o.push(("write!", flag(write!(t, "{}-{}", 12, "\u{e9}").is_ok())));
+                o.push(("write_char", flag(t.write_char('\u{20ac}').is_ok())));
+            },
+            13 => {
+                let by_ref: String = String::from(&*t);
+                o.push(("String::from(&t)", by_ref.into_bytes()));
+                let by_val: String = String::from(t.clone());
+                o.push(("String::from(t)", by_val.into_bytes()));
+                o.push(("Display", format!("{}", t).into_bytes()));
+                o.push(("Display-padded", format!("{:>12}|{:<3}", t, t).into_bytes()));
+                let dbg = format!("{:?}", t);
+                let kind_ok = ["Tendril<UTF8>(inline: ", "Tendril<UTF8>(owned: ", "Tendril<UTF8>(shared: "].iter().find(|p| dbg.starts_with(**p));
+                o.push(("Debug-kind", flag(kind_ok.is_some())));
+                o.push(("Debug-content", kind_ok.map(|p| dbg[p.len()..].as_bytes().to_vec()).unwrap_or_default()));
+                let r: &str = t.as_ref();
+                o.push(("AsRef<str>", r.as_bytes().to_vec()));
+                let d: &str = &**t;
+                o.push(("Deref", d.as_bytes().to_vec()));
+                let b: &[u8] = std::borrow::Borrow::borrow(&*t);
+                o.push(("Borrow<[u8]>", b.to_vec()));
+                let own = d.to_string();
+                o.push(("eq-str", flag(*t == *own.as_str())));
+                let longer = format!("{own}x");
+                o.push(("ne-longer-str", flag(*t == *longer.as_str())));
+                if !own.is_empty() {
+                    let mut other = own.clone();
+                    let c = other.pop().unwrap();
+                    other.push(if c == 'q' { 'r' } else { 'q' });
+                    o.push(("ne-last-char", flag(*t == *other.as_str())));
+                    o.push(("ne-prefix", flag(*t == own[..own.len() - c.len_utf8()])));
+                }
+            },
+            14 => {
+                let s: String = String::from(&*t);
+                o.push(("From<String>", bytes_of(&Tendril::<Self, A>::from(s.clone()))));
+                o.push(("From<&str>", bytes_of(&Tendril::<Self, A>::from(&s[..]))));
+                o.push(("from_slice", bytes_of(&Tendril::<Self, A>::from_slice(&s))));
+                match s.parse::<Tendril<Self, A>>() {
+                    Ok(x) => o.push(("FromStr", bytes_of(&x))),
+                    Err(()) => o.push(("FromStr-err", vec![])),
+                }
+                o.push(("to_tendril", bytes_of(&tendril::SliceExt::to_tendril(&s[..]))));
+                o.push(("format_tendril", bytes_of(&tendril::format_tendril!("{}", s))));
+                o.push(("format", bytes_of(&Tendril::<Self, A>::format(format_args!("<{}>{}", s, 7)))));
+                for c in s.chars().take(3) {
+                    o.push(("from_char", bytes_of(&Tendril::<Self, A>::from_char(c))));
+                }
+            },
+            15 => {
+                t.push_slice("\u{e9}!");
+                o.push(("as_superset<WTF8>", bytes_of(t.as_superset::<fmt::WTF8>())));
+                o.push(("into_superset<WTF8>", bytes_of(&t.clone().into_superset::<fmt::WTF8>())));
+                match t.try_as_subset::<fmt::ASCII>() {
+                    Ok(v) => o.push(("as_subset<ASCII>", bytes_of(v))),
+                    Err(()) => o.push(("as_subset<ASCII>-err", vec![])),
+                }
+                t.pop_back(3);
+                match t.try_as_subset::<fmt::ASCII>() {
+                    Ok(v) => o.push(("as_subset<ASCII>", bytes_of(v))),
+                    Err(()) => o.push(("as_subset<ASCII>-err", vec![])),
+                }
+                match t.clone().try_into_subset::<fmt::ASCII>() {
+                    Ok(v) => o.push(("into_subset<ASCII>", bytes_of(&v))),
+                    Err(orig) => o.push(("into_subset<ASCII>-err", bytes_of(&orig))),
+                }
+            },
+            _ => {},
+        }
+        o
+    }
+    fn m_conv(w: u8, m: &mut Vec<u8>) -> Obs {
+        let mut o: Obs = vec![];
+        let s = String::from_utf8(m.clone()).unwrap();
+        match w {
+            10 => {
+                let add: String = U_CHARS.iter().collect();
+                m.extend_from_slice(add.as_bytes());
+                o.push(("from-chars", add.into_bytes()));
+            },
+            11 => {
+                let add: String = U_STRS.concat();
+                m.extend_from_slice(add.as_bytes());
+                o.push(("from-strs", add.into_bytes()));
+            },
+            12 => {
+                m.extend_from_slice("xy12-\u{e9}\u{20ac}".as_bytes());
+                o.push(("write_str", flag(true)));
+                o.push(("write!", flag(true)));
+                o.push(("write_char", flag(true)));
+            },
+            13 => {
+                o.push(("String::from(&t)", m.clone()));
+                o.push(("String::from(t)", m.clone()));
+                o.push(("Display", m.clone()));
+                o.push(("Display-padded", format!("{:>12}|{:<3}", s, s).into_bytes()));
+                o.push(("Debug-kind", flag(true)));
+                o.push(("Debug-content", format!("{:?})", s).into_bytes()));
+                o.push(("AsRef<str>", m.clone()));
+                o.push(("Deref", m.clone()));
+                o.push(("Borrow<[u8]>", m.clone()));
+                o.push(("eq-str", flag(true)));
+                o.push(("ne-longer-str", flag(false)));
+                if !s.is_empty() {
+                    o.push(("ne-last-char", flag(false)));
+                    o.push(("ne-prefix", flag(false)));
+                }
+            },
+            14 => {
+                for l in ["From<String>", "From<&str>", "from_slice", "FromStr", "to_tendril", "format_tendril"] {
+                    o.push((l, m.clone()));
+                }
+                o.push(("format", format!("<{}>{}", s, 7).into_bytes()));
+                for c in s.chars().take(3) {
+                    o.push(("from_char", c.to_string().into_bytes()));
+                }
+            },
+            15 => {
+                m.extend_from_slice("\u{e9}!".as_bytes());
+                o.push(("as_superset<WTF8>", m.clone()));
+                o.push(("into_superset<WTF8>", m.clone()));
+                o.push(("as_subset<ASCII>-err", vec![]));
+                m.truncate(m.len() - 3);
+                if m.is_ascii() {
+                    o.push(("as_subset<ASCII>", m.clone()));
+                    o.push(("into_subset<ASCII>", m.clone()));
+                } else {
+                    o.push(("as_subset<ASCII>-err", vec![]));
+                    o.push(("into_subset<ASCII>-err", m.clone()));
+                }
+            },
+            _ => {},
+        }
+        o
+    }
     fn write_first<A: Atomicity>(t: &mut Tendril<Self, A>) -> bool {
         if t.len32() > 0 {
             let s: &mut str = &mut *t;
@@ -306,6 +912,37 @@ fn wtf8_valid(b: &[u8]) -> bool {
 }
 impl FmtX for fmt::WTF8 {
     const NAME: &'static str = "WTF8";
+    const HASH_AS_BYTES: bool = false;
+    fn convs() -> &'static [u8] {
+        &[32]
+    }
+    fn conv<A: Atomicity>(w: u8, t: &mut Tendril<Self, A>) -> Obs {
+        let mut o: Obs = vec![];
+        if w == 32 {
+            match t.try_as_subset::<fmt::UTF8>() {
+                Ok(v) => o.push(("as_subset<UTF8>", bytes_of(v))),
+                Err(()) => o.push(("as_subset<UTF8>-err", vec![])),
+            }
+            match t.clone().try_into_subset::<fmt::UTF8>() {
+                Ok(v) => o.push(("into_subset<UTF8>", bytes_of(&v))),
+                Err(orig) => o.push(("into_subset<UTF8>-err", bytes_of(&orig))),
+            }
+        }
+        o
+    }
+    fn m_conv(w: u8, m: &mut Vec<u8>) -> Obs {
+        let mut o: Obs = vec![];
+        if w == 32 {
+            if std::str::from_utf8(m).is_ok() {
+                o.push(("as_subset<UTF8>", m.clone()));
+                o.push(("into_subset<UTF8>", m.clone()));
+            } else {
+                o.push(("as_subset<UTF8>-err", vec![]));
+                o.push(("into_subset<UTF8>-err", m.clone()));
+            }
+        }
+        o
+    }
     fn lits() -> &'static [&'static [u8]] {
         &[L_A, L_9, L_LEAD, L_TRAIL, L_LEAD9, L_PAIR]
     }
@@ -360,6 +997,12 @@ pub enum Op {
     Swap01,
     /// a tendril of exactly n ASCII bytes (length ladder; prefix-only)
     MakeN(u8, u32),
+    /// conversion / trait battery `which` on slot (leaf-only: never extended by the DFS)
+    Conv(u8, u8),
+    /// `real[d].clone_from(&real[s])`
+    CloneFrom(u8, u8),
+    /// a request whose size computation overflows (capacity above 2^31): documented panic, nothing may change
+    Overflow(u8, u8),
 }
 
 /// lengths on and next to the inline limit and every power of two (buffer growth boundaries)
@@ -433,6 +1076,17 @@ pub fn alphabet<F: FmtX>() -> Vec<Op> {
     v.push(Op::DropSlot(2));
     v.push(Op::PushTendril(2, 0));
     v.push(Op::Swap01);
+    for (d, s) in [(0u8, 1u8), (1, 0), (2, 0), (0, 2)] {
+        v.push(Op::CloneFrom(d, s));
+    }
+    for k in 0..4u8 {
+        v.push(Op::Overflow(0, k));
+    }
+    for s in 0..2u8 {
+        for &w in GENERIC_CONVS.iter().chain(F::convs()) {
+            v.push(Op::Conv(s, w));
+        }
+    }
     v
 }
 
@@ -771,6 +1425,109 @@ impl<F: FmtX, A: Atomicity> Pool<F, A> {
                     Ok(true) => self.model[s as usize].as_mut().unwrap().extend_from_slice(b"zzz"),
                 }
             },
+            Op::CloneFrom(d, s) => {
+                need!(d);
+                need!(s);
+                if d == s {
+                    return Outcome::Disabled;
+                }
+                let (a, b) = if d < s {
+                    let (x, y) = self.real.split_at_mut(s as usize);
+                    (x[d as usize].as_mut().unwrap(), y[0].as_ref().unwrap())
+                } else {
+                    let (x, y) = self.real.split_at_mut(d as usize);
+                    (y[0].as_mut().unwrap(), x[s as usize].as_ref().unwrap())
+                };
+                if let Err(p) = real!(a.clone_from(b)) {
+                    bad!("panic", "clone_from panicked: {p}");
+                }
+                self.model[d as usize] = self.model[s as usize].clone();
+            },
+            Op::Overflow(s, k) => {
+                need!(s);
+                const HUGE: u32 = 0x9000_0000;
+                let t = self.real[s as usize].as_mut().unwrap();
+                // (may decline, must panic)
+                let r: Result<Option<Tendril<F, A>>, String> = match k {
+                    0 => real!({
+                        t.reserve(u32::MAX);
+                        None
+                    }),
+                    1 => real!({
+                        t.reserve(HUGE);
+                        None
+                    }),
+                    2 => {
+                        if !F::HAS_EXTEND_BYTE {
+                            return Outcome::Disabled;
+                        }
+                        real!({
+                            F::extend_huge(t, HUGE);
+                            None
+                        })
+                    },
+                    _ => real!(Some(Tendril::<F, A>::with_capacity(HUGE))),
+                };
+                match r {
+                    Err(p) => {
+                        if !p.contains("overflow in buffer arithmetic") {
+                            bad!("panic", "{op:?}: undocumented panic: {p}");
+                        }
+                    },
+                    Ok(x) => {
+                        // a reservation is only a suggestion (a shared or empty-handed tendril may decline it);
+                        // growing the content or creating the buffer cannot succeed without 2.25 GiB
+                        if k >= 2 {
+                            mon.enter();
+                            drop(x);
+                            mon.leave();
+                            bad!("accepted-invalid", "{op:?} returned normally");
+                        }
+                    },
+                }
+            },
+            Op::Conv(s, w) => {
+                need!(s);
+                if s > 1 {
+                    return Outcome::Disabled;
+                }
+                let o1 = (1 - s) as usize;
+                let mut t = self.real[s as usize].take().unwrap();
+                let r = {
+                    let oth = [self.real[o1].as_ref(), self.real[2].as_ref()];
+                    let tr = &mut t;
+                    real!(if w < 10 { g_real::<F, A>(w, tr, oth) } else { (F::conv(w, tr), None) })
+                };
+                mon.enter();
+                self.real[s as usize] = Some(t);
+                mon.leave();
+                let (robs, rnew) = match r {
+                    Err(p) => bad!("panic", "conversion battery {w} panicked: {p}"),
+                    Ok(x) => x,
+                };
+                let (mobs, mnew) = {
+                    let mut m = self.model[s as usize].take().unwrap();
+                    let oth = [self.model[o1].as_ref(), self.model[2].as_ref()];
+                    let x = if w < 10 { g_model::<F>(w, &mut m, oth) } else { (F::m_conv(w, &mut m), None) };
+                    self.model[s as usize] = Some(m);
+                    x
+                };
+                if let Some(n) = rnew {
+                    mon.enter();
+                    self.real[2] = Some(n);
+                    mon.leave();
+                }
+                if let Some(n) = mnew {
+                    self.model[2] = Some(n);
+                }
+                let d = obs_diff::<F>(&robs, &mobs);
+                mon.enter();
+                drop(robs);
+                mon.leave();
+                if let Some(d) = d {
+                    bad!("conversion", "battery {w} on slot {s}: {d}");
+                }
+            },
             Op::Swap01 => {
                 if self.real[0].is_none() && self.real[1].is_none() {
                     return Outcome::Disabled;
@@ -943,6 +1700,11 @@ fn dfs<F: FmtX, A: Atomicity>(
     }
     if seq.len() >= depth {
         return;
+    }
+    if let Some(&l) = seq.last() {
+        if matches!(ops[l as usize], Op::Conv(..)) {
+            return;
+        }
     }
     for s in 0..ops.len() as u16 {
         seq.push(s);
